@@ -163,16 +163,44 @@ MALPOINT = "ecdsa.keys.MalformedPointError"
 KEYERRS = (DER, UNKCURVE, MALPOINT)
 
 
-# OBJECT IDENTIFIER codec as its callers see it.  NOT proved here (loops over lists of sub-identifiers): bounded stand-in in C11
+# OBJECT IDENTIFIER codec as its callers see it.  The real remove_object is verified against the clauses below that do not
+# mention the OID value's encoding (UnexpectedDER is the only exception; the remainder is a proper suffix after an 0x06 TLV
+# with a non-empty body; the arcs returned are in the X.690 ranges); the clause `consumed bytes == canonical encoding of the
+# value` stays ASSUMED (bounded stand-in in C11: it needs uniqueness of base-128 numerals, an induction this engine cannot do)
+def _oid_arcs_ok(result):
+    from pyvc.sym import llen, lat, SIntList
+    arcs = result[0]
+    if isinstance(arcs, sym.SOid):
+        return True                                   # the callers' abstract view: nothing is said (and nothing assumed) about the arcs
+    if isinstance(arcs, (tuple, list)):
+        return len(arcs) >= 2 and all(isinstance(a, int) and a >= 0 for a in arcs) and arcs[0] <= 2 and (arcs[0] == 2 or arcs[1] < 40)
+    i = z3.Int("arcs!i")
+    nonneg = z3.ForAll([i], z3.Implies(z3.And(0 <= i, i < sym.LLEN(arcs.t)), sym.LAT(arcs.t, i) >= 0), patterns=[sym.LAT(arcs.t, i)], qid="arcs_nonneg")
+    return And_(llen(arcs) >= 2, SBool(nonneg), lat(arcs, 0) <= 2, Or_(eq(lat(arcs, 0), 2), lat(arcs, 1) < 40))
+
+
+def _numbers_nonneg(numbers):
+    if not isinstance(numbers, sym.SIntList):
+        return all(a >= 0 for a in numbers)
+    i = z3.Int("nums!i")
+    return SBool(z3.ForAll([i], z3.Implies(z3.And(0 <= i, i < sym.LLEN(numbers.t)), sym.LAT(numbers.t, i) >= 0), patterns=[sym.LAT(numbers.t, i)], qid="numbers_nonneg"))
+
+
 @contract("ecdsa.der.remove_object", props=["C11", "C10", "C09"], string=Bytes)
 def _(c):
-    c.applied_only = True
+    from pyvc.sym import llen
+    c.theories = {"list"}
     c.raises(DER)
 
     def mk(ex):
         ex.n_fresh += 1
         return (sym.SOid(z3.Const("oid!%d" % ex.n_fresh, sym.OidSort)), ex.fresh_bytes("rest"))
     c.returns(mk)
+    c.loop(0, invariant=[lambda numbers, body: And_(_numbers_nonneg(numbers), Or_(llen(numbers) >= 1, blen(body) >= 1))],
+           decreases=lambda body: blen(body))
+    c.ensures(lambda string, result: And_(eq(at(string, 0), 0x06), blen(string) - blen(result[1]) >= 3,
+                                          beq(slc(string, blen(string) - blen(result[1]), blen(string)), result[1])), "rest-is-what-follows-a-nonempty-0x06-TLV")
+    c.ensures(lambda result: _oid_arcs_ok(result), "arcs-in-X.690-ranges")
     c.assumed_ensures = [lambda string, result: beq(string, cat(SBytes(sym.ENCOID(result[0].t)), result[1]))]
 
 
